@@ -160,7 +160,7 @@ def gen_tasks(tier, seed):
             fl = I.dag_flow(es, rng, weights=(1, 1, 2, 3, 5), max_routes=4)
             if fl:
                 tasks.append({"kind": "flowsafe", "name": name, "edges": I.with_flow(es, fl)})
-    for name, es in I.dag_graphs(tier, rng, quick_n=8, thorough_n5=40):
+    for name, es in I.dag_graphs(tier, rng, quick_n=8, thorough_n5=150):
         Xs = [("all", [list(e) for e in es])]
         if len(es) > 2:
             Xs.append(("subset", [list(e) for e in rng.sample(es, max(1, len(es) // 2))]))
@@ -180,7 +180,7 @@ def gen_tasks(tier, seed):
             fl = I.dag_flow(es, rng, weights=(1, 1, 2, 3, 5), max_routes=4)
             if fl:
                 tasks.append({"kind": "flowsafe", "name": name, "edges": I.with_flow(es, fl)})
-    for name, es in I.digraphs(tier, rng, quick_n=10, thorough_n=80):
+    for name, es in I.digraphs(tier, rng, quick_n=10, thorough_n=200):
         Xs = [("all", [list(e) for e in es])]
         Xs.append(("subset", [list(e) for e in rng.sample(es, max(1, len(es) // 2))]))
         if len(es) > 3:
